@@ -12,6 +12,27 @@ CHECKS = {
     ref='DESIGN.md §3 C01'),
 }
 
+COMMON_NOTE = ' Exact field arithmetic stands in for IEEE-754 (rounding/conditioning outside the claim); np.linalg.solve / inv are trusted through their algebraic contracts; structurally ill-posed configurations are skipped by an exact rational rank test of an independent tableau oracle; candidates are replayed on the unpatched code with real numpy before a VIOLATION is printed.'
+TECH = 'symbolic execution of the real code on Laurent-polynomial values with path forking; z3 QF_LRA certificates over the monomial abstraction; numpy kernels as contract stubs'
+
+CHECKS.update({
+ 'C02': dict(technique=TECH,
+    text='Bounded symbolic verification of ComplexSolution / DCSolution and the whole transform chain: element values, amplitudes, phases, source frequencies, the analysis frequency w are symbolic; the frequency gate forks into in-band / out-of-band regions, all explored; in each region z3 shows the reported phasors (times sqrt(2) for RMS) satisfy the tableau with jwL, jwC, A e^{j phi} for in-band sources and short/open otherwise, for all values; DC equals the real part of the w = 0 solution.',
+    note='Bounds: exhaustive for circuits up to 2 nodes / 2 components (3 nodes / 2 in thorough) over 14 kinds, seeded samples up to 6 nodes / 8 components; w_resolution is the default 1e-3.' + COMMON_NOTE, ref='DESIGN.md §3 C02'),
+ 'C04': dict(technique=TECH,
+    text='Bounded symbolic verification of superposition: the library\'s own source-zeroing transformers and solver are executed for every block of every partition of the source set; z3 shows that the SUM of the reported sub-solutions satisfies the tableau of the network with exactly those sources active, for all complex values; all-off gives the homogeneous tableau, a symbolic common factor gives the scaled tableau.',
+    note='Uniqueness of the tableau solution (exact rank test) turns the discharged tableau membership into superposition / zero response / homogeneity. Bounds: connected multigraphs up to 3 nodes / 3 branches (4 in thorough) over 8 kinds with <= 3 sources, seeded samples up to 6 nodes / 10 branches.' + COMMON_NOTE, ref='DESIGN.md §3 C04'),
+ 'C05': dict(technique=TECH + '; degree-2 certificates (conjugated solver equations times potentials)',
+    text='Bounded symbolic verification of power bookkeeping: Tellegen sum of the reported complex powers (linear sources counted as delivered), S = v conj(i) (RMS), half of it (peak), v i (DC), S_R = R|i|^2, S_L = jwL|i|^2, S_C = -jwC|v|^2 are discharged as polynomial identities for all values; sign clauses follow from z conj(z) >= 0.',
+    note='Time-domain and transient power clauses are discharged in C09 / C12. Bounds: network level up to 3 nodes / 3 branches (4 in thorough) plus samples to 7 nodes / 11 branches; circuit level on a seeded subset of the C02 configurations.' + COMMON_NOTE, ref='DESIGN.md §3 C05'),
+ 'C06': dict(technique=TECH + '; certificates with product multipliers relating the inverse-matrix stub to an independent unit-current tableau',
+    text='Bounded symbolic verification of port impedance and equivalent sources: open_circuit_impedance / element_impedance are executed with np.linalg.inv as contract stub; z3 shows the reported value equals phi(a)-phi(b) of an independent tableau of the source-free network with a unit test current, for all positive-real / purely reactive values; identical nodes give 0; disconnected ports must not give a finite value; Isc*Zth = Voc and the Thevenin/Norton wrappers are identities on the reported values.',
+    note='The load formula V = Voc Z_L/(Zth+Z_L) is the mathematical consequence of exact Zth and Voc and is not separately discharged. Values: R, G > 0, reactive elements purely imaginary with one sign per configuration (no resonance cancellation). Bounds: every ordered node pair and element of connected multigraphs up to 3 nodes / 2 branches exhaustively over 10 kinds, sampled to 4 nodes / 5 branches.' + COMMON_NOTE, ref='DESIGN.md §3 C06'),
+ 'C16': dict(technique=TECH + '; structural assertions per path',
+    text='Bounded symbolic verification of every transformer in Network/transformers.py: structural claims (survivor ids, order, orientation, identical element objects, exemption list, untouched input) are asserted on every path; the solution of the simplified network, extended to absorbed nodes, is shown by z3 to satisfy the tableau of an independently simplified description for all complex values.',
+    note='A result that still contains an uncontracted short is accepted when electrically equivalent. Bounds: well-posed base networks up to 3 nodes / 3 branches (4 in thorough) augmented with up to 3 shorts and 2 opens (chains, stars, parallel, touching the reference), all operations, exemption subsets.' + COMMON_NOTE, ref='DESIGN.md §3 C16'),
+})
+
 NOT_YET = {}
 
 def main():
